@@ -27,6 +27,11 @@ type ReplayFile struct {
 	Knobs    map[string]int   `json:"knobs"`
 	Programs map[string][]Cmd `json:"programs"`
 	Choices  []uint32         `json:"choices"`
+	// ChoiceSeed: when Choices is nil, draw the schedule from this seed
+	// (used while minimising: fixed programs, fresh schedule)
+	ChoiceSeed    int64 `json:"choice_seed,omitempty"`
+	MinimisedFrom int   `json:"minimised_from_cmds,omitempty"`
+	Executions    int   `json:"minimiser_executions,omitempty"`
 	// informational
 	Violation string   `json:"violation,omitempty"`
 	Class     string   `json:"class,omitempty"`
@@ -126,6 +131,13 @@ func setupProcess() {
 	hooksInstalled = true
 	installServerHooks()
 	endpoint.VerifHTTPDial = simHTTPDial
+	endpoint.VerifHTTPBeforeSend = func() {
+		if s := curSim; s != nil {
+			s.mu.Lock()
+			s.whoLocked()
+			s.mu.Unlock()
+		}
+	}
 	tlog.SetOutput(fatalFilter{})
 	tlog.SetLevel(1)
 	if os.Getenv("VERIF_T38LOG") != "" {
@@ -161,7 +173,13 @@ func runOnce(t *testing.T, prop string, tier string, seed int64, rep *ReplayFile
 	var w *World
 	body := func() {
 		var ch *chooser
-		if rep != nil {
+		if rep != nil && rep.Choices == nil && rep.ChoiceSeed != 0 {
+			ch = newChooser(rep.ChoiceSeed)
+		} else if rep != nil && rep.Choices == nil && rep.Programs == nil {
+			// seed-only replay (e.g. a run that killed its worker process)
+			rep = nil
+			ch = newChooser(seed*2654435761 + 12345)
+		} else if rep != nil {
 			ch = newReplayChooser(rep.Choices)
 		} else {
 			ch = newChooser(seed*2654435761 + 12345)
@@ -246,11 +264,13 @@ func (w *World) teardown() {
 	for _, c := range cs {
 		c.kill()
 	}
-	for i := 0; i < 8; i++ {
+	for i := 0; i < 40; i++ {
+		synctest.Wait()
+		s.runZombies()
 		for _, z := range s.zombies {
 			z.reap()
 		}
-		time.Sleep(700 * time.Millisecond)
+		time.Sleep(300 * time.Millisecond)
 		all := true
 		for _, z := range s.zombies {
 			if !z.stopped {
@@ -261,10 +281,14 @@ func (w *World) teardown() {
 			break
 		}
 	}
-	for _, z := range s.zombies {
-		z.reap()
+	for i := 0; i < 6; i++ {
+		synctest.Wait()
+		s.runZombies()
+		for _, z := range s.zombies {
+			z.reap()
+		}
+		time.Sleep(500 * time.Millisecond)
 	}
-	time.Sleep(2 * time.Second)
 	s.mu.Lock()
 	for d, inst := range instByDir {
 		if inst.node.sim == s {
